@@ -42,7 +42,7 @@ def gen_case(rng, cfg, idx):
         seed = None if rng.random() < 0.7 else round(rng.uniform(0.5, 2.0), 3)
         b.prog.append({"k": "backward", "tgt": L, "seed": seed})
         case = {"prog": b.prog, "L": L, "cseed": rng.randrange(1 << 30), "bws": [len(b.prog) - 1]}
-        if idx % 3 == 2 and cfg.get("two_epoch", True):
+        if cfg.get("two_epoch", True) and (idx % 3 == 2 or (cfg.get("two_epoch") == "random" and rng.random() < 0.4)):
             # a second graph epoch: tensors of the graph that backward() just cleared are used again (new views of former views,
             # in-place writes through them, reads) and a second read-out is back-propagated
             for _ in range(rng.choice([1, 1, 2])):
